@@ -6,7 +6,9 @@ From Dashu Require Import Base.Prelude Base.Words Int.ModRingSpec Int.ModRingSpe
   Int.DivWordModel Int.DivLargeProofs Int.DivContracts Int.ModRingWords Int.ModRingWordsProofs Int.ModRingWordsMulProofs Int.ModRingWordsInst
   Int.DivNumModular Int.ModRingNumModular Int.ModRingNumModularDefs
   Int.ModRingConv Int.ModRingConvProofs Int.ModRingWordsSrc Int.ModRingConvInst Int.ModRingConvInstProofs Int.ModRingGenProofs
-  Int.GrlModel Int.ModRingGcdSmall.
+  Int.GrlModel Int.ModRingGcdSmall
+  Int.GrlLehmer Int.ModRingLehmer Int.ModRingLehmerGuess Int.ModRingLehmerProofs Int.ModRingLehmerInst Int.ModRingLehmerSrc
+  Int.RingAdd Int.ModRingReducerWords Int.ModRingReducerWordsProofs.
 From DashuGen Require Import ModRingGen.
 Open Scope Z_scope.
 
@@ -653,3 +655,141 @@ Proof.
   exact (gen_prims_reduce w Hw (nm2by1 w) (nm3by2 w) (ext_2by1 _ _ _ _ _ E) (ext_3by2 _ _ _ _ _ E) r t via bits sg v Hwf H1 H2 Hr).
 Qed.
 Print Assumptions C13_gen_into_ring_prims.
+
+(** ==================== round 4 ==================== *)
+(** ---------------- the Lehmer extended gcd (gcd::lehmer::gcd_ext_in_place, C12's as-is model) is TOTAL ---------------- *)
+(** lehmer_guess / lehmer_guess_dword on aligned leading words 0 <= Y0 <= X0: return (no checked word operation
+    overflows, no division by zero), the matrix is unimodular with entries in [0, COEFF_LIMIT], the reduced leading words
+    stay >= b resp. >= c, and the matrix has the odd shape (exact Jebelean test: x' <= y' follows) or the even shape (the
+    source's weaker second test: only 2Q <= X0' - b for the last quotient Q) *)
+Theorem C13_lehmer_guess_total : forall w X0 Y0, 2 <= w -> 0 <= Y0 <= X0 ->
+  (X0 < 2 ^ w -> exists a b c d, lehmer_guess w X0 Y0 = Ok (a, b, c, d) /\ guess_post (coeff_limit w) X0 Y0 a b c d) /\
+  (X0 < 2 ^ (2 * w) -> exists a b c d, lehmer_guess_dword w X0 Y0 = Ok (a, b, c, d) /\ guess_post (coeff_limit w) X0 Y0 a b c d).
+Proof.
+  intros w X0 Y0 Hw H. split; intros HB; [exact (lehmer_guess_ok w X0 Y0 Hw H HB) | exact (lehmer_guess_dword_ok w X0 Y0 Hw H HB)].
+Qed.
+Print Assumptions C13_lehmer_guess_total.
+
+(** the main loop of gcd_ext_in_place: with fuel logarithmic in x * y it returns, keeping  t1 * x + t0 * y = lhs,
+    t0 < lhs and the order of the cofactors that bounds the final `t0 += q * t1` *)
+Theorem C13_lehmer_ext_loop_total : forall w, 2 <= w -> forall mdl lhs, 3 <= mdl -> forall fuel x y t0 t1 sw,
+  oinv lhs x y t0 t1 -> x * y < 2 ^ Z.of_nat fuel ->
+  exists x' y' t0' t1' sw', lehmer_ext_loop (S fuel) mdl w (wlen w lhs + 1) x y t0 t1 sw = Ok (x', y', t0', t1', sw') /\
+    oinv lhs x' y' t0' t1' /\ wlen w y' <=? 1 = true.
+Proof. exact ext_loop_ok. Qed.
+Print Assumptions C13_lehmer_ext_loop_total.
+
+(** gcd_ext_in_place (any MIN_DWORD_GUESS_LEN >= 3, any word size): returns for every 0 < rhs < lhs - no debug assertion,
+    slice bound or checked operation of the model fires - with g = gcd, 0 <= |b| < lhs, lhs | g - b * rhs *)
+Theorem C13_gcd_ext_in_place_total : forall w, 2 <= w -> forall mdl lf pf lhs rhs, 3 <= mdl -> 0 < rhs < lhs ->
+  lhs * rhs < 2 ^ Z.of_nat lf -> 2 * w <= Z.of_nat pf ->
+  exists g bm bs, gcd_ext_in_place_gen true (S lf) pf mdl w lhs rhs = Ok (g, bm, bs) /\
+    g = Z.gcd lhs rhs /\ 0 <= bm < lhs /\ (lhs | g - signed bs bm * rhs).
+Proof. exact gcd_ext_in_place_total. Qed.
+Print Assumptions C13_gcd_ext_in_place_total.
+
+(** the single-word ending re-slices t0 to x.len() + t1_len words before `t0 += q * t1`: no word of t0 is cut off, the
+    sum fits, the slice fits the lhs_len + 1 word buffer (also when the cofactors are in the order t0 > t1) *)
+Theorem C13_lehmer_ending_fits : forall w, 2 <= w -> forall lhs x y t0 t1, oinv lhs x y t0 t1 -> 1 <= y ->
+  0 <= t0 <= t0 + x / y * t1 /\ t0 + x / y * t1 < 2 ^ (w * (wlen w x + wlen w t1)) /\ wlen w x + wlen w t1 <= wlen w lhs + 1.
+Proof. exact ending_fits. Qed.
+Print Assumptions C13_lehmer_ending_fits.
+
+(** ... with the constants of the source and the logarithmic fuels the oracle runs *)
+Theorem C13_lehmer_inplace : forall w lhs rhs, 2 <= w -> 0 < rhs < lhs ->
+  exists g b s, lehmer_inplace_asis w lhs rhs = Ok (g, b, s) /\
+    g = Z.gcd lhs rhs /\ 0 <= b < lhs /\ (lhs | g - signed s b * rhs) /\
+    (g = 1 -> (rhs * signed s b) mod lhs = 1 mod lhs).
+Proof. exact lehmer_inplace_ok. Qed.
+Print Assumptions C13_lehmer_inplace.
+
+(** logarithmic fuel for the primitive extended Euclid (ExtendedGcd for Word / DoubleWord, C12's model) and for
+    gcd_ext_word / gcd_ext_dword: the oracle can execute them *)
+Theorem C13_prim_gcd_ext_log_fuel : forall fuel a b, 0 < a -> 0 < b -> a * b < 2 ^ Z.of_nat fuel ->
+  exists res, prim_gcd_ext_asis fuel a b = Ok res.
+Proof. exact prim_gcd_ext_total_log. Qed.
+Print Assumptions C13_prim_gcd_ext_log_fuel.
+
+Theorem C13_gcd_ext_small_log : forall cap lhs rhs, 0 < rhs < lhs -> lhs <= cap ->
+  exists g b sg, gcd_ext_small_asis (Z.to_nat (Z.log2 (rhs * (lhs mod rhs)) + 1)) cap lhs rhs = Ok (g, b, sg) /\
+    g = Z.gcd lhs rhs /\ 0 <= b < lhs /\ (g = 1 -> (rhs * signed sg b) mod lhs = 1 mod lhs).
+Proof. exact gcd_ext_small_log_ok. Qed.
+Print Assumptions C13_gcd_ext_small_log.
+
+(** the dispatch of inv_large (1 word / 2 words / Lehmer) as transcribed: returns, with the contract - NO premise *)
+Theorem C13_gcd_ext_src : forall w lhs rhs, 2 <= w -> 0 < rhs < lhs ->
+  exists g b s, gcd_ext_src w lhs rhs = Ok (g, b, s) /\
+    g = Z.gcd lhs rhs /\ 0 <= b < lhs /\ (g = 1 -> (rhs * signed s b) mod lhs = 1 mod lhs).
+Proof. exact gcd_ext_src_ok. Qed.
+Print Assumptions C13_gcd_ext_src.
+
+(** Reduced::inv of the multi-word ring on word lists: NO premise (was: contract of gcd_ext_in_place) *)
+Theorem C13_words_inv_src : forall w, 8 <= w -> forall R r x raw, lring_ok w R r -> ring_wf w r -> wrep w R r x raw ->
+  exists o, wl_inv w (gcd_src w) R raw = Ok o /\
+    match o with
+    | Some c => exists v, wrep w R r v c /\ is_inverse (r_m r) x (v mod r_m r) /\ Z.gcd x (r_m r) = 1
+    | None => Z.gcd x (r_m r) <> 1
+    end.
+Proof. exact src_inv_nocontract. Qed.
+Print Assumptions C13_words_inv_src.
+
+(** every external function of the value-level model is a proved transcription: NO premise *)
+Theorem C13_externals_src : forall w, 2 <= w -> externals_ok w (nm2by1 w) (nm3by2 w) nm_finv (gcd_src w).
+Proof. exact src_externals_nocontract. Qed.
+Print Assumptions C13_externals_src.
+
+(** inverse exactly for units, division = div_spec, any expression tree - every ring, every operand, NO premise *)
+Theorem C13_inv_div_src : forall w, 2 <= w -> forall r x y a b, ring_wf w r -> rep r x a -> rep r y b ->
+  ((exists c, inv_asis w nm_finv (gcd_src w) a = Ok (Some c)) <-> Z.gcd x (r_m r) = 1) /\
+  match div_spec (r_m r) x y with
+  | Ok q => exists c, div_asis w (nm2by1 w) (nm3by2 w) nm_finv (gcd_src w) a b = Ok c /\ rep r q c
+  | Panic p => div_asis w (nm2by1 w) (nm3by2 w) nm_finv (gcd_src w) a b = Panic p
+  | _ => False
+  end.
+Proof.
+  intros w Hw r x y a b Hwf Ha Hb. exact (C13_nm_inv_div w Hw (gcd_src w) r x y a b (gcd_src_ok w Hw) Hwf Ha Hb).
+Qed.
+Print Assumptions C13_inv_div_src.
+
+Theorem C13_expr_src : forall w, 2 <= w -> forall r e, ring_wf w r -> exps_ok e ->
+  match eval_spec (r_m r) e with
+  | Ok q => exists c, eval_asis w (nm2by1 w) (nm3by2 w) nm_finv (gcd_src w) r e = Ok c /\ rep r q c
+  | Panic p => eval_asis w (nm2by1 w) (nm3by2 w) nm_finv (gcd_src w) r e = Panic p
+  | _ => False
+  end.
+Proof. intros w Hw r e Hwf He. exact (C13_nm_expr w Hw (gcd_src w) r e (gcd_src_ok w Hw) Hwf He). Qed.
+Print Assumptions C13_expr_src.
+
+(** the third as-is run of the oracle (word lists + real kernels + the gcd code of the source) = specification *)
+Theorem C13_hrun_inv_src : forall m a, 1 <= m -> hrun_inv_src m a = Ok (inv_spec m a).
+Proof. exact hrun_inv_src_correct. Qed.
+Print Assumptions C13_hrun_inv_src.
+
+Theorem C13_hrun_div_src : forall m a b, 1 <= m -> hrun_div_src m a b = div_spec m a b.
+Proof. exact hrun_div_src_correct. Qed.
+Print Assumptions C13_hrun_div_src.
+
+Theorem C13_hrun_gcd_probe : forall m a, 1 <= m -> a mod m <> 0 ->
+  exists br g b s, hrun_gcd_probe m a = Ok (br, g, b, s) /\ g = Z.gcd m (a mod m) /\ 0 <= b < m /\ 1 <= br <= 3.
+Proof. exact hrun_gcd_probe_ok. Qed.
+Print Assumptions C13_hrun_gcd_probe.
+
+(** ---------------- Reducer::reduce_once / reduce_negate of the multi-word ring on word lists ---------------- *)
+(** sub_large (length test, add::sub_in_place), sub_large_dword (add::sub_dword_in_place, debug_assert!(!overflow)),
+    sub_large_ref_val (sub_same_len_in_place_swap on the low words, the high words pushed, `borrow && sub_one_in_place`)
+    with C01's as-is carry / borrow kernels = the value-level model; NegativeUBig exactly when the difference is negative *)
+Theorem C13_words_reducer_once : forall w, 2 <= w -> forall strict R r t, lring_ok w R r -> ring_wf w r -> 0 <= t ->
+  wl_rd_reduce_once w strict R r t = rd_reduce_once_with w strict r t.
+Proof. exact wl_rd_reduce_once_ok. Qed.
+Print Assumptions C13_words_reducer_once.
+
+Theorem C13_words_reducer_negate : forall w, 2 <= w -> forall R r t, lring_ok w R r -> ring_wf w r -> 0 <= t ->
+  wl_rd_reduce_negate w R t = rd_reduce_negate r t.
+Proof. exact wl_rd_reduce_negate_ok. Qed.
+Print Assumptions C13_words_reducer_negate.
+
+(** the run of the oracle (Reducer::add / dbl / sub / neg, raw form) with those helpers on word lists = the value-level run *)
+Theorem C13_hrun_rd_lin : forall o m a b, 1 <= m -> 0 <= a -> 0 <= b -> (o = RAdd \/ o = RDbl \/ o = RSub \/ o = RNeg) ->
+  hrun_rd_lin o m a b = rbind (run_rd true o m a b) (fun t => Ok (snd t)).
+Proof. exact hrun_rd_lin_correct. Qed.
+Print Assumptions C13_hrun_rd_lin.
